@@ -77,4 +77,15 @@ func Notifier.Notify
   modifies v.listeners.m, v.listeners.deletedKeys, map(v.listeners.m), chans
   ensures inv(v) && unlocked(v.mutex) && !has(v.listeners.m, value)
   ensures old(has(v.listeners.m, value)) ==> closed(old(v.listeners.m[value].channel))
+
+-- Deregister: the listener's own "deregistered" channel is closed BEFORE its registry entry goes. Removing the last entry
+-- of a value closes the shared value channel; a goroutine blocked in Wait selects on both channels and must find the
+-- deregistered one closed - otherwise it takes the closed value channel for a notification that never happened.
+type Listener
+  callback deregister()
+    modifies everything
+func Listener.Deregister
+  requires l != nil && l.deregisteredChan != nil && l.deregister != nil && (!aload(l.deregistered) ==> !closed(l.deregisteredChan))     -- the channel is closed here only, under the flag
+  modifies everything
+  ghost before call Listener#deregister: assert closed(l.deregisteredChan)
 @*/
